@@ -272,6 +272,10 @@ class Models(object):
             return x.conj() if isinstance(x, Poly) else x
         if name in ('isnan', 'isinf'):
             if isinstance(x, Poly) and (x.atoms() & {'nan', 'inf'}):
+                if name == 'isinf' and x.is_monomial():
+                    (mono, c), = x.t.items()
+                    if mono == (('inf', Fr(1)),) and c.is_real() and not c.is_zero():
+                        return True          # +-c * inf
                 return Unk(('fn', name, x))
             return False
         if name == 'isfinite':
